@@ -519,3 +519,8 @@ mod tests {
         assert_eq!(attrs.ar, 8.5);
     }
 }
+
+// Verification hook (compiled only by `cargo kani`, which sets `--cfg kani`).
+#[cfg(kani)]
+#[path = "/verif/harness/beatmap_attrs.rs"]
+pub(crate) mod verif_harness;
